@@ -248,6 +248,26 @@ func (f *Facts) assume(e ast.Expr, val bool) {
 	f.m[atom] = val != flip
 	if ra, ok := canonRel(f.info, e); ok {
 		f.rel[atom] = ra
+		if f.strict && ra.Op == token.EQL && val != flip {
+			// x == c1 and x == c2 with different constants cannot both hold
+			for _, pr := range [][2]ast.Expr{{ra.X, ra.Y}, {ra.Y, ra.X}} {
+				c1, isC := constInt(f.info, pr[1])
+				if !isC {
+					continue
+				}
+				xs := normStr(f.info, pr[0])
+				for a2, r2 := range f.rel {
+					if a2 == atom || r2.Op != token.EQL || !f.m[a2] {
+						continue
+					}
+					for _, q := range [][2]ast.Expr{{r2.X, r2.Y}, {r2.Y, r2.X}} {
+						if c2, isC2 := constInt(f.info, q[1]); isC2 && c2 != c1 && normStr(f.info, q[0]) == xs {
+							f.dead = true
+						}
+					}
+				}
+			}
+		}
 		if ra.Op == token.EQL && len(f.vals) > 0 {
 			f.refineVals(ra, val != flip)
 		}
@@ -507,7 +527,44 @@ func (g *Graph) GuardFactsPS() *Solution[FactsPS] {
 	if g.factsPSCache != nil {
 		return g.factsPSCache
 	}
+	g.factsPSCache = g.guardFactsPS(nil)
+	return g.factsPSCache
+}
+
+// GuardFactsPSAbout is GuardFactsPS restricted to the atoms keep accepts (what the other atoms say is forgotten after
+// every step): the disjuncts then differ only in what the rule asks about, so the bound on their number is not used up
+// by unrelated case distinctions. Not cached.
+func (g *Graph) GuardFactsPSAbout(keep func(atom string) bool) *Solution[FactsPS] {
+	return g.guardFactsPS(keep)
+}
+
+func (g *Graph) guardFactsPS(keep func(atom string) bool) *Solution[FactsPS] {
 	base := g.factsLattice()
+	if keep != nil {
+		inner := base.Step
+		base.Step = func(f Facts, st Step) Facts {
+			n := inner(f, st)
+			drop := false
+			for k := range n.m {
+				if !keep(k) {
+					drop = true
+					break
+				}
+			}
+			if !drop {
+				return n
+			}
+			n = n.clone()
+			for k := range n.m {
+				if !keep(k) {
+					delete(n.m, k)
+					delete(n.rel, k)
+					delete(n.bexp, k)
+				}
+			}
+			return n
+		}
+	}
 	norm := func(in FactsPS) FactsPS {
 		seen := map[string]bool{}
 		var out FactsPS
@@ -524,14 +581,35 @@ func (g *Graph) GuardFactsPS() *Solution[FactsPS] {
 		}
 		sort.Slice(out, func(i, j int) bool { return factsKey(out[i]) < factsKey(out[j]) })
 		for len(out) > maxDisjuncts {
-			n := len(out)
-			out[n-2] = base.Join(out[n-2], out[n-1])
-			out = out[:n-1]
+			// fold the two states that agree on the most atoms (what distinguishes the others is kept)
+			bi, bj, best := 0, 1, -1
+			for i := 0; i < len(out); i++ {
+				for j := i + 1; j < len(out); j++ {
+					common, diff := 0, 0
+					for k, v := range out[i].m {
+						if w, ok := out[j].m[k]; ok && w == v {
+							common++
+						} else {
+							diff++
+						}
+					}
+					for k := range out[j].m {
+						if _, ok := out[i].m[k]; !ok {
+							diff++
+						}
+					}
+					if score := common*4 - diff; score > best {
+						bi, bj, best = i, j, score
+					}
+				}
+			}
+			out[bi] = base.Join(out[bi], out[bj])
+			out = append(out[:bj], out[bj+1:]...)
 		}
 		return out
 	}
 	l := Lattice[FactsPS]{
-		Init: FactsPS{base.Init},
+		Init: FactsPS{func() Facts { i := base.Init.clone(); i.strict = true; return i }()},
 		Join: func(a, b FactsPS) FactsPS { return norm(append(append(FactsPS{}, a...), b...)) },
 		Widen: func(a, b FactsPS) FactsPS {
 			// fold everything into one state and widen it: guarantees termination on loops
@@ -560,7 +638,7 @@ func (g *Graph) GuardFactsPS() *Solution[FactsPS] {
 			out := make(FactsPS, 0, len(s))
 			for _, f := range s {
 				if st.Kind == StCond {
-					out = append(out, splitCond(base, f, st, st.Node.(ast.Expr), st.Val, 0)...)
+					out = append(out, splitCond(g, base, f, st, st.Node.(ast.Expr), st.Val, 0)...)
 					continue
 				}
 				out = append(out, base.Step(f, st))
@@ -568,8 +646,7 @@ func (g *Graph) GuardFactsPS() *Solution[FactsPS] {
 			return norm(out)
 		},
 	}
-	g.factsPSCache = Solve(g, l)
-	return g.factsPSCache
+	return Solve(g, l)
 }
 
 // KnownAll reports the truth of e when it is the same in every disjunct.
@@ -776,6 +853,14 @@ func (g *Graph) factsLattice() Lattice[Facts] {
 							delete(s.bexp, k)
 						}
 					}
+				}
+				if name, marked := g.markNodes[st.Node]; marked {
+					s = s.clone()
+					s.m["§"+name] = true
+				}
+				if name, un := g.unmarkNodes[st.Node]; un && s.m["§"+name] {
+					s = s.clone()
+					delete(s.m, "§"+name)
 				}
 				lhs := assignedLHS(st.Node)
 				var unlockRoots []string
@@ -1600,20 +1685,38 @@ func (f *Facts) sumFacts(g *Graph, lhs, rhs ast.Expr) {
 
 // splitCond steps over a branch condition path-sensitively: a conjunction that failed (a disjunction that held) is
 // split into the cases the short-circuit evaluation distinguishes, each assumed on its own copy of the state.
-func splitCond(base Lattice[Facts], f Facts, st Step, e ast.Expr, val bool, depth int) []Facts {
+func splitCond(g *Graph, base Lattice[Facts], f Facts, st Step, e ast.Expr, val bool, depth int) []Facts {
 	x := ast.Unparen(e)
+	// a boolean local that names a compound condition is split like the condition itself
+	if id, ok := x.(*ast.Ident); ok && g != nil && g.Fi != nil && depth < 6 {
+		if ex, changed := expandBoolLocals(g, id, 0, f.stale); changed {
+			if inner := ast.Unparen(ex); isShortCircuit(inner) || isNotOfShortCircuit(inner) {
+				var out []Facts
+				for _, h := range splitCond(g, base, f, st, inner, val, depth+1) {
+					// the local itself is decided too
+					h2 := h.clone()
+					h2.assume(id, val)
+					out = append(out, h2)
+				}
+				return out
+			}
+		}
+	}
 	if u, ok := x.(*ast.UnaryExpr); ok && u.Op == token.NOT && depth < 6 {
 		if _, isB := ast.Unparen(u.X).(*ast.BinaryExpr); isB {
-			return splitCond(base, f, st, u.X, !val, depth+1)
+			return splitCond(g, base, f, st, u.X, !val, depth+1)
+		}
+		if _, isId := ast.Unparen(u.X).(*ast.Ident); isId {
+			return splitCond(g, base, f, st, u.X, !val, depth+1)
 		}
 	}
 	if b, ok := x.(*ast.BinaryExpr); ok && depth < 6 {
 		if b.Op == token.LAND && !val || b.Op == token.LOR && val {
 			// first operand decides; or it does not and the second decides
 			var out []Facts
-			out = append(out, splitCond(base, f, st, b.X, val, depth+1)...)
-			for _, g := range splitCond(base, f, st, b.X, !val, depth+1) {
-				out = append(out, splitCond(base, g, st, b.Y, val, depth+1)...)
+			out = append(out, splitCond(g, base, f, st, b.X, val, depth+1)...)
+			for _, h := range splitCond(g, base, f, st, b.X, !val, depth+1) {
+				out = append(out, splitCond(g, base, h, st, b.Y, val, depth+1)...)
 			}
 			// the whole condition is stepped as well, for what the base analysis derives from it (pending atoms etc.)
 			for i := range out {
@@ -1623,8 +1726,8 @@ func splitCond(base Lattice[Facts], f Facts, st Step, e ast.Expr, val bool, dept
 		}
 		if b.Op == token.LAND && val || b.Op == token.LOR && !val {
 			var out []Facts
-			for _, g := range splitCond(base, f, st, b.X, val, depth+1) {
-				out = append(out, splitCond(base, g, st, b.Y, val, depth+1)...)
+			for _, h := range splitCond(g, base, f, st, b.X, val, depth+1) {
+				out = append(out, splitCond(g, base, h, st, b.Y, val, depth+1)...)
 			}
 			return out
 		}
@@ -1671,4 +1774,9 @@ func (g *Graph) boolLocalsOver(rootDot string) []string {
 	})
 	g.boolOver[rootDot] = out
 	return out
+}
+
+func isNotOfShortCircuit(e ast.Expr) bool {
+	u, ok := ast.Unparen(e).(*ast.UnaryExpr)
+	return ok && u.Op == token.NOT && (isShortCircuit(u.X) || isNotOfShortCircuit(u.X))
 }
